@@ -395,6 +395,14 @@ def _binop(name, a, b):
                 raise ValueError("negative shift count")
             lb = 0
         if name == "lshift":
+            if hb >= 8 and _real_type(b) is not int:
+                # the interval does not see path conditions: ask the solver for a tighter bound on the count
+                for cap in (8, 16, 32, 64, 128):
+                    if cap > hb:
+                        break
+                    if ENGINE.check(tb >= cap) == z3.unsat:
+                        hb = cap - 1
+                        break
             if hb >= W:
                 # shifting by more than the modelled width: only exact for a zero operand
                 if la == 0 and ha == 0:
